@@ -110,6 +110,12 @@ func c11Line(id int) *sdf.Line2 {
 	return &sdf.Line2{{X: f}, {X: f, Y: 1}}
 }
 
+// what a renderer leaves in its batch slice after Write returned: an item no plan contains (read back as an unknown id)
+var (
+	c11JunkTri  = c11Tri(7_000_000)
+	c11JunkLine = c11Line(7_000_000)
+)
+
 type c11R3 struct {
 	plan *c11Plan
 	r    *Rng
@@ -123,6 +129,10 @@ func (s *c11R3) Render(_ sdf.SDF3, out sdf.Triangle3Writer) {
 			ts[i] = c11Tri(id)
 		}
 		out.Write(ts)
+		// the slice is the renderer's: it reuses it for its next batch (Write has taken what it needs)
+		for i := range ts {
+			ts[i] = c11JunkTri
+		}
 	}, func() { out.Close() })
 	out.Close()
 }
@@ -140,6 +150,9 @@ func (s *c11R2) Render(_ sdf.SDF2, out sdf.Line2Writer) {
 			ls[i] = c11Line(id)
 		}
 		out.Write(ls)
+		for i := range ls {
+			ls[i] = c11JunkLine
+		}
 	}, func() { out.Close() })
 	out.Close()
 }
